@@ -207,7 +207,7 @@ def rand_sessions(rng, net, nmax=7, horizon=30, bkinds=("ideal", "l2c", "l2s"), 
         if sid_style == "x":
             sid = f"x{k}"
         elif sid_style == "other_station":
-            sid = rng.choice(ids) if rng.random() < 0.3 else f"x{k}"
+            sid = rng.choice([i_ for i_ in ids if i_ != st] or ids) if rng.random() < 0.5 else f"x{k}"
             if any(o["id"] == sid for o in out):
                 sid = f"x{k}"
         else:
@@ -331,7 +331,7 @@ def scripted_schedule(sd, net, t):
     r0 = random.Random(f"{sd['seed']}:{rel}")
     stations = {s["id"]: s for s in net["stations"]}
     if sd.get("mode") == "full":
-        plain = {i: [float(evse_max(s["evse"]) if evse_max(s["evse"]) != float("inf") else 64.0)]
+        plain = {i: [float(evse_max(s["evse"]) if evse_max(s["evse"]) != float("inf") else 64.0)] * int(sd.get("full_len", 1))
                  for i, s in stations.items()}
         return {k: list(v) for k, v in plain.items()}, plain
     if sd.get("mode") == "allrand":
